@@ -109,7 +109,7 @@ def clone_value(v, memo):
     if t is PeekV:
         return PeekV(clone_value(v.it, memo))
     if t is AdaptV:
-        return AdaptV(v.kind, clone_value(v.it, memo), clone_value(v.fn, memo))
+        return AdaptV(v.kind, clone_value(v.it, memo), clone_value(v.fn, memo), clone_value(v.cur, memo))
     if t is FmtArgs:
         return FmtArgs([p if isinstance(p, str) else (p[0], clone_value(p[1], memo)) for p in v.pieces])
     if t is FmtArg:
@@ -300,7 +300,9 @@ def merge_group(sts, base, drop_pc=False, dry=False):
         if isinstance(x, AdaptV):
             if any(v.kind != x.kind or not identical(v.fn, x.fn) for v in xs):
                 raise NoMerge()
-            return AdaptV(x.kind, mv([v.it for v in xs]), x.fn)
+            if any((v.cur is None) != (x.cur is None) for v in xs):
+                raise NoMerge()
+            return AdaptV(x.kind, mv([v.it for v in xs]), x.fn, mv([v.cur for v in xs]) if x.cur is not None else None)
         if isinstance(x, DiscrV):
             return x if all(v.t.eq(x.t) for v in xs) else DiscrV(ite_chain(guards, [v.t for v in xs]))
         if isinstance(x, FnItem):
@@ -676,6 +678,15 @@ class Exec(object):
                         b = self.p.by_impl.get((im['file'], im['line'], im['col'], m.group(3)))
                         if b:
                             return self.eval_const_body(st, b.sname, fr)
+        last = s.split('::')[-1]
+        sc = self.p.simple_consts.get(last)
+        if sc and re.fullmatch(r'[A-Z_][A-Z_0-9]*', last):
+            if len(set(sc)) != 1:
+                raise Unsupported('ambiguous constant item %s' % last)
+            return self.const(st, fr, sc[0])
+        bs = self.p.by_name.get(strip_generics(s))
+        if bs and bs[0].header.startswith('const '):
+            return self.eval_const_body(st, bs[0].sname, fr)
         if re.match(r'^[A-Za-z_<]', s):
             return FnItem(s)
         raise Unsupported('const %r' % s)
